@@ -98,6 +98,21 @@ func (lc *litCtx) goLit(x *Term, t types.Type) string {
 			return lc.typeStr(t) + "(nil)"
 		}
 		return lc.typeStr(t) + "{" + strings.Join(es, ", ") + "}"
+	case *types.Map:
+		if x.Op == "ctor" && len(x.Args) == 4 {
+			if x.Args[3].IsTrue() {
+				return lc.typeStr(t) + "(nil)"
+			}
+			var es []string
+			has, val := x.Args[0], x.Args[1]
+			for has.Op == "store" {
+				if has.Args[2].IsTrue() {
+					es = append(es, lc.goLit(has.Args[1], u.Key())+": "+lc.goLit(Select(val, has.Args[1]), u.Elem()))
+				}
+				has = has.Args[0]
+			}
+			return lc.typeStr(t) + "{" + strings.Join(es, ", ") + "}"
+		}
 	case *types.Interface:
 		if ucs := unionCases[x.Sort]; ucs != nil && x.Op == "ctor" {
 			for _, uc := range ucs {
@@ -361,7 +376,7 @@ func (p *Program) runReplay(file string, pkgDir string) (string, error) {
 	b, _ := json.Marshal(ov)
 	os.WriteFile(ovf, b, 0o644)
 	defer os.Remove(ovf)
-	cmd := exec.Command("bash", "-c", fmt.Sprintf("ulimit -v 8000000; cd %q && go test -overlay %q -v -vet=off -count=1 -timeout 60s -run '^TestGovcReplay$' .", filepath.Join(p.Repo, pkgDir), ovf))
+	cmd := exec.Command("bash", "-c", fmt.Sprintf("ulimit -v 8000000; cd %q && timeout 100 go test -overlay %q -v -vet=off -count=1 -timeout 60s -run '^TestGovcReplay$' .", filepath.Join(p.Repo, pkgDir), ovf))
 	var out bytes.Buffer
 	cmd.Stdout = &out
 	cmd.Stderr = &out
@@ -495,6 +510,10 @@ func (p *Program) Replay(key string, o *Obligation, prop, outDir string) *Replay
 	src, err := p.buildReplay(fn, inputs, meta)
 	if err != nil {
 		out.Detail = "cannot build replay: " + err.Error()
+		return out
+	}
+	if len(src) > 300000 {
+		out.Detail = "counterexample too large to replay"
 		return out
 	}
 	os.MkdirAll(outDir, 0o755)
